@@ -255,7 +255,9 @@ def drive(sch, spec, sign=(1.0, 1.0), between=None):
                 del workers[tid]
                 hook()
                 sch.on_trial_remove(trials[tid])
-            elif r >= upto:
+            elif r >= upto or (spec.get("p_early") and rng.random() < spec["p_early"]):
+                # the training script ends (at its last level, or - `p_early` - by itself before): the Tuner passes the
+                # last result once more with on_trial_complete
                 hook()
                 sch.on_trial_complete(trials[tid], dict(res))
                 ev.append(["complete", tid, r])
